@@ -169,18 +169,18 @@ async fn actor_inner(p: OpPlan, ldap: &mut Ldap, completed: &std::sync::Arc<std:
                 _ => ldap.delete("cn=x").await,
             };
             match r {
-                Ok(res) => emit(format!("\"ev\":\"Ret\",\"o\":\"o{}\",\"r\":\"val\",\"tok\":{},\"rc\":{}", o, tok_of(&res.text), res.rc)),
-                Err(e) => emit(format!("\"ev\":\"Ret\",\"o\":\"o{}\",\"r\":\"{}\",\"tok\":0", o, classify(&e))),
+                Ok(res) => emit(format!("\"ev\":\"Ret\",\"o\":\"o{}\",\"r\":\"val\",\"tok\":{},\"rc\":{},\"closed\":{}", o, tok_of(&res.text), res.rc, ldap.is_closed())),
+                Err(e) => emit(format!("\"ev\":\"Ret\",\"o\":\"o{}\",\"r\":\"{}\",\"tok\":0,\"closed\":{}", o, classify(&e), ldap.is_closed())),
             }
             completed.lock().unwrap().push(ldap.last_id() as i64);
         }
         Kind::Abandon => match ldap.abandon(p.target).await {
-            Ok(()) => emit(format!("\"ev\":\"Ret\",\"o\":\"o{}\",\"r\":\"null\",\"tok\":0", o)),
-            Err(e) => emit(format!("\"ev\":\"Ret\",\"o\":\"o{}\",\"r\":\"{}\",\"tok\":0", o, classify(&e))),
+            Ok(()) => emit(format!("\"ev\":\"Ret\",\"o\":\"o{}\",\"r\":\"null\",\"tok\":0,\"closed\":{}", o, ldap.is_closed())),
+            Err(e) => emit(format!("\"ev\":\"Ret\",\"o\":\"o{}\",\"r\":\"{}\",\"tok\":0,\"closed\":{}", o, classify(&e), ldap.is_closed())),
         },
         Kind::Unbind => match ldap.unbind().await {
-            Ok(()) => emit(format!("\"ev\":\"Ret\",\"o\":\"o{}\",\"r\":\"null\",\"tok\":0", o)),
-            Err(e) => emit(format!("\"ev\":\"Ret\",\"o\":\"o{}\",\"r\":\"{}\",\"tok\":0", o, classify(&e))),
+            Ok(()) => emit(format!("\"ev\":\"Ret\",\"o\":\"o{}\",\"r\":\"null\",\"tok\":0,\"closed\":{}", o, ldap.is_closed())),
+            Err(e) => emit(format!("\"ev\":\"Ret\",\"o\":\"o{}\",\"r\":\"{}\",\"tok\":0,\"closed\":{}", o, classify(&e), ldap.is_closed())),
         },
         Kind::Search => {
             let started = if p.adapted {
@@ -191,7 +191,7 @@ async fn actor_inner(p: OpPlan, ldap: &mut Ldap, completed: &std::sync::Arc<std:
                 ldap.streaming_search("dc=x", Scope::Subtree, "(a=b)", vec!["cn"]).await
             };
             match started {
-                Err(e) => emit(format!("\"ev\":\"Ret\",\"o\":\"o{}\",\"r\":\"{}\",\"tok\":0", o, classify(&e))),
+                Err(e) => emit(format!("\"ev\":\"Ret\",\"o\":\"o{}\",\"r\":\"{}\",\"tok\":0,\"closed\":{}", o, classify(&e), ldap.is_closed())),
                 Ok(mut st) => {
                     emit(format!("\"ev\":\"Ret\",\"o\":\"o{}\",\"r\":\"null\",\"tok\":0", o));
                     let mut calls = 0;
